@@ -107,6 +107,25 @@ FORMS = [B(*f) for f in [
     ('XREAD', 'STREAMS', 'kx', '0-0'), ('XREAD', 'COUNT', '1', 'STREAMS', 'kx', '0-0'), ('XREAD', 'STREAMS', 'kx', '2-0'), ('XREAD', 'STREAMS', 'kx', '1-1'),
 ]]
 
+# commands only the script executor implements (spec/Extras.tla): run through the script paths (and directly, where the
+# reference — and ferrous — answer "unknown command")
+EXTRA_FORMS = [B(*f) for f in [
+    ('GETBIT', 'ks', '0'), ('GETBIT', 'ks', '2'), ('GETBIT', 'ks', '7'), ('GETBIT', 'ks', '15'), ('GETBIT', 'ks', '16'), ('GETBIT', 'ks', '100'), ('GETBIT', 'nokey', '0'),
+    ('GETBIT', 'kl', '0'), ('GETBIT', 'ks', '-1'), ('GETBIT', 'ks', 'x'), ('GETBIT', 'ks', '4294967296'), ('GETBIT', 'ks', '4294967295'), ('GETBIT', 'ks'),
+    ('SETBIT', 'ks', '7', '1'), ('SETBIT', 'ks', '7', '0'), ('SETBIT', 'ks', '0', '1'), ('SETBIT', 'ks', '2', '0'), ('SETBIT', 'ks', '20', '1'), ('SETBIT', 'ks', '39', '0'),
+    ('SETBIT', 'new', '9', '1'), ('SETBIT', 'new', '0', '0'), ('SETBIT', 'kt', '6', '1'), ('SETBIT', 'kl', '0', '1'), ('SETBIT', 'ks', '-1', '1'), ('SETBIT', 'ks', '0', '2'),
+    ('SETBIT', 'ks', 'x', '1'), ('SETBIT', 'ks', '4294967296', '1'), ('SETBIT', 'ks', '7'), ('SETBIT', 'ks', '0', ''),
+    ('BITCOUNT', 'ks'), ('BITCOUNT', 'kt'), ('BITCOUNT', 'nokey'), ('BITCOUNT', 'kl'), ('BITCOUNT', 'kt', '0', '0'), ('BITCOUNT', 'kt', '1', '2'), ('BITCOUNT', 'kt', '-2', '-1'),
+    ('BITCOUNT', 'kt', '2', '1'), ('BITCOUNT', 'kt', '0', '100'), ('BITCOUNT', 'kt', '-100', '-50'), ('BITCOUNT', 'kt', '0'), ('BITCOUNT', 'kt', 'x', '1'), ('BITCOUNT', 'kt', '3', '1'),
+    ('BITCOUNT', 'kt', '-1', '0'), ('BITCOUNT', 'kt', '-1', '-2'), ('BITCOUNT', 'nokey', '0', '-1'), ('BITCOUNT', 'kt', '0', '-1'),
+    ('ZREMRANGEBYRANK', 'kz', '0', '0'), ('ZREMRANGEBYRANK', 'kz', '0', '-1'), ('ZREMRANGEBYRANK', 'kz', '1', '1'), ('ZREMRANGEBYRANK', 'kz', '-1', '-1'),
+    ('ZREMRANGEBYRANK', 'kz', '2', '1'), ('ZREMRANGEBYRANK', 'kz', '5', '9'), ('ZREMRANGEBYRANK', 'kz', '-100', '0'), ('ZREMRANGEBYRANK', 'nokey', '0', '-1'),
+    ('ZREMRANGEBYRANK', 'kl', '0', '-1'), ('ZREMRANGEBYRANK', 'kz', 'x', '1'), ('ZREMRANGEBYRANK', 'kz', '0'),
+    ('ZREMRANGEBYSCORE', 'kz', '1', '2'), ('ZREMRANGEBYSCORE', 'kz', '-inf', '+inf'), ('ZREMRANGEBYSCORE', 'kz', '2.5', '10'), ('ZREMRANGEBYSCORE', 'kz', '3', '1'),
+    ('ZREMRANGEBYSCORE', 'kz', '2', '2'), ('ZREMRANGEBYSCORE', 'nokey', '0', '1'), ('ZREMRANGEBYSCORE', 'kl', '0', '1'), ('ZREMRANGEBYSCORE', 'kz', 'x', '1'),
+    ('ZREMRANGEBYSCORE', 'kz', 'nan', '1'), ('ZREMRANGEBYSCORE', 'kz', '1'),
+]]
+
 
 def form_name(a):
     return b' '.join(a)[:60].decode('latin1')
